@@ -116,10 +116,12 @@ pub fn rand_shape(rng: &mut Rng, star: bool, graphs: bool) -> Vec<Q> {
         let q0 = rng.pick(&d).clone();
         let qt = quoted(q0.0[0].clone(), q0.0[1].clone(), q0.0[2].clone());
         if !matches!(q0.0[2], sophia_api::term::SimpleTerm::Triple(_)) {
+            // the quoting statement sits in the graph of the asserted triple, or (one time in three) in another graph
+            let qg = if rng.chance(2, 3) { q0.1.clone() } else { rng.pick(&gs).clone() };
             if rng.chance(2, 3) {
-                push(&mut d, ([qt.clone(), iri("http://ex/q"), rand_object(rng, nb)], q0.1.clone()));
+                push(&mut d, ([qt.clone(), iri("http://ex/q"), rand_object(rng, nb)], qg));
             } else {
-                push(&mut d, ([iri("http://ex/a"), iri("http://ex/q"), qt.clone()], q0.1.clone()));
+                push(&mut d, ([iri("http://ex/a"), iri("http://ex/q"), qt.clone()], qg));
             }
         }
     }
